@@ -82,7 +82,7 @@ def _evaluate(req):
     from .engine import apply_assignment
     from .obs import observe
     from .ops import Env, Skip, execute
-    from .world import get_world
+    from .world import get_world, zone_replay, zone_replay_end
 
     world = get_world()
     sc = req["sc"]
@@ -91,6 +91,9 @@ def _evaluate(req):
     first = True
     pool = _LazyPool(sc.get("pool", []))
     env = Env(pool, results)
+    # zone-cache history of the simulation (world.ZONE_HISTORY): replayed across this client's ops
+    zhist = any(asg and asg.get("_zlog") for _, asg in req["ops"])
+    zlast = 0
     for i, (op, asg) in enumerate(req["ops"]):
         if op[0] in ("barrier", "nem") or asg is None:
             results.append(Skip if asg is None and op[0] not in ("barrier", "nem") else None)
@@ -98,16 +101,23 @@ def _evaluate(req):
         if first:
             apply_assignment(world, sc, asg)       # includes the canonical reset
             first = False
+            if zhist:
+                for j in range(len(pool.specs)):   # the shared values exist before any clear, as in the simulation
+                    pool[j]
         else:
             for reg, val in asg.items():
-                if reg != "disc":
+                if reg != "disc" and not reg.startswith("_"):
                     world.set_reg(reg, val)
+        if zhist:
+            zone_replay(asg.get("_zlog") or [], zlast)
         try:
             r = execute(op, env)
         except Skip:
             r = Skip
         except Exception as e:  # noqa: BLE001 - an exception is an observation
             r = e
+        finally:
+            zlast = zone_replay_end()
         results.append(r)
         try:
             out[i] = ["SKIP"] if r is Skip else observe(r)
